@@ -18,6 +18,8 @@ FAULT_KINDS = ('open-fail', 'read-fail', 'write-torn', 'close-fail',
 HOT_FAMILIES = ('hpx_asp25', 'ftj_glu', 'ftj_sys3', 'dfr_mtxa', 'dfr_mtxb', 'dfr_mtxs',
                 'dfr_s00', 'dfr_s05', 'hpx_asp25s', 'sgb_nti', 'ftj_zn', 'hpx_kni')
 BIG_OK = ('ftj_sys3',)
+# families whose base structure has a non-covalently coupled pair
+NONCOV_FAMILIES = ('hpx_asp25', 'ftj_glu')
 
 INVALID_INPUTS = [
     {'id': 'invalid.empty', 'family': 'invalid_empty', 'stem': 'empty',
@@ -315,7 +317,14 @@ def gen_sweep(seed, wl, cfg=None):
     for i in pool:
         fams.setdefault(i['family'], []).append(i)
     hot = [f for f in HOT_FAMILIES if f in fams]
-    fam = rng.choice(hot) if hot and rng.random() < 0.75 else rng.choice(sorted(fams))
+    noncov = [f for f in NONCOV_FAMILIES if f in fams]
+    u = rng.random()
+    if noncov and u < 0.4:
+        fam = rng.choice(noncov)
+    elif hot and u < 0.75:
+        fam = rng.choice(hot)
+    else:
+        fam = rng.choice(sorted(fams))
     subject = rng.choice(fams[fam])
     en_opts = set(k for k in OPTION_KINDS if rng.random() < 0.4)
     opts, param, optsig = gen_options(rng, en_opts, subject, params)
@@ -330,12 +339,14 @@ def gen_sweep(seed, wl, cfg=None):
     probe_opts = [[], [['-d']], opts]
     steps = []
     used = {subject['id']: {'text': subject['text'], 'stem': subject['stem']}}
+    kind = rng.choice(['single_path', 'single_stream', 'pipeline', 'cli'])
+    subject_call = gen_call(rng, {kind}, subject, opts, param, [subject], False)
+    subject_call['inputs'] = [subject['id']]
     for r in range(first, first + chunk):
-        kind = rng.choice(['single_path', 'single_stream', 'pipeline', 'cli'])
-        call = gen_call(rng, {kind}, subject, opts, param, [subject], False)
-        call['inputs'] = [subject['id']]
+        call = dict(subject_call)   # the same call every time: one census serves all
         steps.append({'perturb': [], 'call': call, 'optsig': optsig, 'family': fam,
-                      'fault': {'kind': 'crash', 'rank': r, 'u_ord': rng.random()}})
+                      'fault': {'kind': 'crash', 'rank': r, 'u_ord': rng.random(),
+                                'u_win': rng.random()}})
         po = rng.choice(probe_opts)
         probe = rng.choice(fams[fam]) if rng.random() < 0.3 else subject
         used[probe['id']] = {'text': probe['text'], 'stem': probe['stem']}
